@@ -35,7 +35,30 @@ def outcome(tok):
     return (f[0], " ".join(f[1:3]))
 
 
-CORPUS = [  # hand-written trees for shapes the generator reaches rarely; each is one program
+def _alias_corpus():
+    """values are built fresh by + : the result of a concatenation shares nothing with its operands, whatever their length
+    or history (arrays of every small length, ranges, arrays after pop / shift / push, empty operands, self-concatenation)"""
+    out = []
+    I = lambda k: ("i", k)
+    V = lambda n: ("var", n)
+    for L in (1, 2, 3, 4, 5, 6, 7, 8, 9, 11, 13):
+        lit = ("arr", [I(k) for k in range(1, L + 1)])
+        out.append(("seq", [("asg", "ar1", lit), ("asg", "ar2", ("bin", "add", V("ar1"), ("arr", [I(60)]))), ("asg", "ar3", ("bin", "add", V("ar1"), ("arr", [I(70)]))),
+                            ("arr", [V("ar1"), V("ar2"), V("ar3")])]))
+        out.append(("seq", [("asg", "ar1", ("range", I(1), I(L))), ("asg", "ar2", ("bin", "add", V("ar1"), ("arr", [I(60)]))), ("asg", "ar3", ("bin", "add", V("ar1"), ("arr", [I(70), I(71)]))),
+                            ("iset", V("ar3"), I(0), I(99)), ("arr", [V("ar1"), V("ar2"), V("ar3")])]))
+        out.append(("seq", [("asg", "ar1", lit), ("call", ("attr", V("ar1"), "pop"), []), ("asg", "ar2", ("bin", "add", V("ar1"), ("arr", [I(80)]))),
+                            ("call", ("attr", V("ar1"), "push"), [I(90)]), ("arr", [V("ar1"), V("ar2")])]))
+        out.append(("seq", [("asg", "ar1", lit), ("call", ("attr", V("ar1"), "shift"), []), ("asg", "ar2", ("bin", "add", V("ar1"), V("ar1"))),
+                            ("call", ("attr", V("ar1"), "push"), [I(90)]), ("iset", V("ar2"), I(0), I(55)), ("arr", [V("ar1"), V("ar2")])]))
+    out.append(("seq", [("asg", "ar1", ("arr", [I(1), I(2), I(3)])), ("asg", "ar2", ("bin", "add", V("ar1"), ("arr", []))), ("iset", V("ar2"), I(0), I(9)), ("arr", [V("ar1"), V("ar2")])]))
+    out.append(("seq", [("asg", "ar1", ("arr", [I(1), I(2), I(3)])), ("asg", "ar2", ("bin", "add", ("arr", []), V("ar1"))), ("iset", V("ar2"), I(0), I(9)), ("arr", [V("ar1"), V("ar2")])]))
+    out.append(("seq", [("asg", "ar1", ("arr", [I(1), I(2), I(3)])), ("asg", "ar2", ("bin", "mul", V("ar1"), I(2))), ("iset", V("ar2"), I(0), I(9)), ("arr", [V("ar1"), V("ar2")])]))
+    out.append(("seq", [("asg", "ar1", ("arr", [I(1), I(2), I(3)])), ("asg", "ar2", ("slc", V("ar1"), I(0), I(2))), ("iset", V("ar2"), I(0), I(9)), ("call", ("attr", V("ar2"), "push"), [I(7)]), ("arr", [V("ar1"), V("ar2")])]))
+    return out
+
+
+CORPUS = _alias_corpus() + [  # hand-written trees for shapes the generator reaches rarely; each is one program
     ("seq", [("asg", "x1", ("i", 5)), ("aset", "x1", "k", ("i", 1)), ]),
     ("seq", [("i", 7), ("asg", "dc1", ("dict", [])), ("aset", "dc1", "k", ("i", 3))]),
     ("seq", [("asg", "ar1", ("arr", [("i", 1), ("i", 2)])), ("asg", "ar2", ("var", "ar1")), ("iset", ("var", "ar1"), ("i", 0), ("i", 9)), ("var", "ar2")]),
